@@ -28,8 +28,10 @@ def _run(ctx):
     enc = F.fn("Content::encode")
     bodies = F.with_closures(enc)
     wo = [(b, c) for b in bodies for c in b.calls if c.local and c.cname.endswith("Writer::write_object")]
-    sp = [(b, c) for b in bodies for c in lib.calls_named(b, r"io::Write::write_all$") if lib._const_bytes_through(b, c.args[1]) in (b" ", b"\n")]
-    ops = [(b, c) for b in bodies for c in lib.calls_named(b, r"io::Write::write_all$") if "operator" in b.oname(c.args[1], 4)]
+    # a write into the buffer: Write::write_all, or (the buffer is a Vec<u8>) Vec::extend_from_slice — the same bytes either way
+    WR = r"io::Write::write_all$|Vec::<u8(, .*)?>::extend_from_slice$|Vec::<T, A>::extend_from_slice$"
+    sp = [(b, c) for b in bodies for c in lib.calls_named(b, WR) if len(c.args) > 1 and lib._const_bytes_through(b, c.args[1]) in (b" ", b"\n")]
+    ops = [(b, c) for b in bodies for c in lib.calls_named(b, WR) if len(c.args) > 1 and "operator" in b.oname(c.args[1], 4)]
     ctx.floor(R, "write_object calls in Content::encode", len(wo), 1)
     ctx.floor(R, "operator writes in Content::encode", len(ops), 1)
     # after every operand an unconditional separator precedes the next token: on every path from write_object to the
